@@ -253,10 +253,44 @@ class RefEVM:
             return bv(int.from_bytes(_keccak(b""), "big"))
         vals = [conc(b) for b in data]
         if all(v is not None for v in vals):
-            return bv(int.from_bytes(_keccak(bytes(vals)), "big"))
+            h = int.from_bytes(_keccak(bytes(vals)), "big")
+            st.hashes.append((bytes(vals), h))
+            return bv(h)
         term = sha3_fn(8 * len(data))(simp(concat_bytes(data)))
         st.hashes.append(term)
         return term
+
+    @staticmethod
+    def a2_instances(hashes, known_preimages=()):
+        """A2 instantiated on the hash terms of a path: every symbolic image is non-zero, within
+        [2^64, 2^256-2^64], and any two images (symbolic or concrete) either have equal preimages or lie at
+        least 2^64 apart (so `hash + small offset` locations of different preimages never meet)."""
+        GAP = bv(1 << 64)
+        sym, con_ = [], {}
+        for h in hashes:
+            if isinstance(h, tuple):
+                con_[h[0]] = h[1]
+            elif not any(h.eq(x) for x in sym):
+                sym.append(h)
+        for b in known_preimages:
+            con_[bytes(b)] = int.from_bytes(_keccak(bytes(b)), "big")
+        out = []
+
+        def gap(a, b):
+            return z3.And(z3.UGE(a - b, GAP), z3.UGE(b - a, GAP))
+
+        for i, h in enumerate(sym):
+            d = h.arg(0)
+            out += [h != bv(0), z3.ULE(h, bv((1 << 256) - (1 << 64))), z3.UGE(h, GAP)]
+            for g in sym[i + 1:]:
+                e = g.arg(0)
+                out.append(z3.Or(d == e, gap(h, g)) if d.size() == e.size() else gap(h, g))
+            for b, v in con_.items():
+                if 8 * len(b) == d.size():
+                    out.append(z3.Or(d == bv(int.from_bytes(b, "big"), d.size()), gap(h, bv(v))))
+                else:
+                    out.append(gap(h, bv(v)))
+        return out
 
     def balance_read(self, st: State, addr160):
         v = simp(z3.Select(st.balance, addr160))
@@ -471,7 +505,23 @@ class RefEVM:
             dst = pop()
             c = conc(dst)
             if c is None:
-                raise Unsupported("symbolic JUMP target")
+                # symbolic target: one continuation per valid destination, plus the invalid-destination halt
+                dst = simp(dst)
+                rest = []
+                for t in sorted(f.jumpdests):
+                    ct = dst == bv(t)
+                    rest.append(dst != bv(t))
+                    if self.feasible(st, ct) != "unsat":
+                        other = st.fork()
+                        other.rc.append(ct)
+                        of = other.frames[-1]
+                        of.pc = t
+                        work.append(other)
+                inv = z3.And(*rest) if rest else z3.BoolVal(True)
+                if self.feasible(st, inv) == "unsat":
+                    raise Unsupported("infeasible path reached")  # dropped below by the caller's work list
+                st.rc.append(inv)
+                raise Halt("exceptional:bad-jumpdest")
             if c not in f.jumpdests:
                 raise Halt("exceptional:bad-jumpdest")
             nxt = c
@@ -780,6 +830,8 @@ class RefEVM:
         if not st.frames:
             if kind in ("return", "stop"):
                 st.logs.extend(f.logs)
+            if st.hashes:
+                st.assumptions = list(st.assumptions) + self.a2_instances(st.hashes, st.env.get("known_preimages", ()))
             return End(kind, data if kind in ("return", "revert") else [], st.rc, st.assumptions, st, st.taint)
         p = st.frames[-1]
         success = kind in ("return", "stop")
